@@ -215,6 +215,8 @@ func evalGen(tier string, r *rng, emit func(string)) {
 			fam = famRegs2(r)
 		case prop == "C05" && i%2 == 1:
 			fam = famRegs(r)
+		case prop == "C07" && i%6 == 3:
+			fam = famMutExample(r)
 		case prop == "C07" && i%3 == 1:
 			fam = famPanic(r)
 		case prop == "C07" && i%3 == 2:
